@@ -15,6 +15,10 @@ CHECKS = {
  'C20': dict(level=MC, tech='TLA+ contract IsStableSortedPerm (Sort.tla) model-checked for uniqueness/non-vacuity; trace validation of recorded echs_event_sort/echs_instant_sort calls',
    text='E1: TLC shows for every input of length <= 4 over a 5-key table (all-day, whole-second, .000, .001 of one day, next day) that the contract accepts exactly the stable insertion-sort result and rejects every adjacent transposition, loss and duplication. E2: recorded sorts of the real WikiSort instantiations (all lengths 0..70/300, thresholds up to 4096, 6 order patterns x 5 key alphabets, seeded random) are judged by TLC: permutation, non-decreasing under the instant order (all-day first), ties keep input order.',
    note='trusted: TLC, Instant.tla ordering (bound to the code by C08), printing-only driver. Memory corruption by the sort shows up as a garbled/crash record which the spec rejects; lengths > 4096 not explored.', ref='3/C20'),
+
+ 'C18': dict(level=MC, tech='TLA+ grammar/printer model (DtText.tla) model-checked for Parse(Print(i)) = i; trace validation of recorded dt_strf/dt_strf_ical/dt_strp/idiff_strf/idiff_strp calls',
+   text='E1: TLC checks on the model that both print forms parse back to the same instant for a field-boundary grid and that equivalent duration spellings denote one value. E2: every recorded print->parse round trip and every parse of an accepted spelling made by the real code is judged by TLC: the printed text is the grammar text of the instant, the parsed instant/duration is what the grammar says, round trips are identities (second resolution for the iCalendar form).',
+   note='trusted: TLC, DtText.tla, printing-only driver. Sub-second durations, negative durations and spellings outside the stated grammar are skipped as outside the property (counted).', ref='3/C18'),
 }
 NA_REASON = 'check not built yet (construction in progress, see DESIGN.md section 10)'
 hooks = {'guard': 'HROPTATYR_ECHSE_VERIF', 'enable': 'no hooks in /repo: checks compile /repo/src as it is (harness/build.sh) and observe through existing seams', 'baseline_off_cmd': 'make -C /repo check', 'source_commits': [], 'add_only': True}
